@@ -188,3 +188,23 @@ func TestErase(t *testing.T) {
 }
 
 var _ protoreflect.Message
+
+// regression witness of the fixed defect: reading a message after a failed lazy Unmarshal panicked
+func TestFailedLazyUnmarshalWitness(t *testing.T) {
+	if pbt.Skip() {
+		t.Skip()
+	}
+	m := corpus.ByName("opaque.lazy_tree.Node").New()
+	err := proto.Unmarshal([]byte{0x9a, 0x06, 0x00, 0x4b}, m.Interface())
+	panicked := false
+	func() {
+		defer func() {
+			if recover() != nil {
+				panicked = true
+			}
+		}()
+		model.Snapshot(m)
+		_ = fmt.Sprint(m.Interface())
+	}()
+	pbt.Witness(t, "KF-lazy-failed-unmarshal-panic", err != nil && panicked, "reading opaque lazy_tree.Node after Unmarshal([9a 06 00 4b]) failed panics")
+}
